@@ -11,6 +11,7 @@
 mod generator;
 mod rewidth;
 mod rfcdec;
+mod sender_range;
 
 use flute::core::alc::{get_sender_current_time, parse_alc_pkt, parse_payload_id};
 use flute::core::lct::{get_ext, push_lct_header, Cenc};
